@@ -5,6 +5,9 @@ import SpoxModel.Lemmas.BuildAlgDiscover
 import SpoxModel.Lemmas.BuildAlgLeak
 import SpoxModel.Lemmas.BuildAlgScope
 import SpoxModel.Lemmas.BuildAlgOrder
+import SpoxModel.Lemmas.BridgeWalk
+import SpoxModel.Lemmas.BridgeFacts
+import SpoxModel.Props.C01
 /-! Property theorems for C04 (only property-level statements and non-vacuity examples live here). -/
 namespace C04
 open BuildAlg
@@ -192,6 +195,7 @@ theorem discover_final (p : Prog) (hwf : WF p) (b : Built) (tr : List Ev)
         have hdi0 : DI p DState.empty :=
           ⟨by simp [DState.empty], by simpa [DState.empty] using closed_nil (gadj p),
            by intro e he; simp [DState.empty] at he,
+           by intro h hh; simp [DState.empty] at hh,
            by intro h hh; simp [DState.empty] at hh, by intro e he; simp [DState.empty] at he,
            by intro s hs; simp [DState.empty] at hs, by intro s hs; simp [DState.empty] at hs,
            by intro s hs; simp [DState.empty] at hs, by intro s hs; simp [DState.empty] at hs⟩
@@ -307,6 +311,73 @@ theorem scope_defined (p : Prog) (hwf : WF p) (b : Built) (tr : List Ev)
       rw [hnil] at this; cases this
     · exact ⟨d, T⟩
 
+/-! ### the bridge to the shared program model (C01): the built emission is accepted by `validG` -/
+
+/-- **build_valid_of_facts**: from the scope facts `BridgeFacts` (all of which are consequences of the
+    theorems above, except that no argument is used outside its body), the nested emission of a
+    successful build, rendered as a `Prog.EGraph`, is accepted by C01's `validG` for the translated
+    program. Proof: induction along the compile walk with a ghost stack of frames. -/
+theorem build_valid_of_facts (p : BuildAlg.Prog) (hwf : WF p) (b : Built) (tr : List Ev)
+    (h : build p = .ok (b, tr)) (d : Nat → Nat) (F : Bridge.BridgeFacts p b d) :
+    Prog.validG (Bridge.toProg p b.argsOf).nodes (Bridge.toEGraph p b)
+      (Bridge.toProg p b.argsOf).main [] = true := by
+  have hc : ∃ cs, compileG p b (p.graphs.length + 1) 0 ⟨[], []⟩ = .ok cs ∧ (0 : Nat) ∈ b.graphTopo := by
+    obtain ⟨st, _, h0, htopo, _⟩ := discover_final p hwf b tr h
+    unfold build at h
+    split at h
+    · cases h
+    · simp only at h
+      split at h
+      · cases h
+      · split at h
+        · cases h
+        · rename_i cs hcs
+          cases h
+          exact ⟨cs, hcs, by rw [htopo]; simpa using h0⟩
+  obtain ⟨cs, hcs, h0⟩ := hc
+  have I0 : Bridge.WInv p b ⟨[], []⟩ [] [] [] [] :=
+    ⟨fun x hx => (by simp [Bridge.visOf] at hx), trivial, fun e he => (by cases he),
+     fun e he => (by cases he), fun c hc => (by cases hc), fun e he => (by cases he),
+     fun x hx => (by cases hx), fun w hw => (by cases hw)⟩
+  exact (Bridge.walk_graph p hwf b d F _ 0 ⟨[], []⟩ cs [] [] [] [] I0 h0
+    (by intro w hw; cases hw) (Or.inl ⟨rfl, rfl⟩) hcs).1
+
+/-- **build_valid**: the emission computed by the Builder model is accepted by C01's `validG`:
+    for every program in creation order whose build succeeds and in which no argument is used
+    outside the graph that owns it (`LeakFree`: the outer-scope half is rejected by the Builder itself
+    — `leak_rejected` — the sibling half only by the final checker, hence the explicit hypothesis),
+    `validG (toProg p) (toEGraph (build p)) main [] = true`. -/
+theorem build_valid (p : BuildAlg.Prog) (hwf : WF p) (b : Built) (tr : List Ev)
+    (h : build p = .ok (b, tr)) (LF : Bridge.LeakFree p b) :
+    Prog.validG (Bridge.toProg p b.argsOf).nodes (Bridge.toEGraph p b)
+      (Bridge.toProg p b.argsOf).main [] = true := by
+  obtain ⟨st, hdi, _, htopo, hown, hso, TF⟩ := discover_final p hwf b tr h
+  obtain ⟨_, _, _, _, hbtopo, hargs⟩ := build_inv p hwf b tr h
+  have hinv := scope_fold p hwf st.owner st.topo.reverse TF (lcaFuel st.topo.reverse)
+    (by simp only [lcaFuel]; omega) st.topo.reverse [] [] (by simp) (sinv_empty p st.owner)
+  rw [← hso, ← hown, ← htopo] at hinv
+  rw [← hown, ← htopo] at TF
+  obtain ⟨d, F⟩ := Bridge.bridgeFacts p hwf b st hdi htopo hown TF hinv hbtopo hargs LF
+  exact build_valid_of_facts p hwf b tr h d F
+
+/-- `build_valid` with every hypothesis executable (what the driver evaluates on each case). -/
+theorem build_valid_checked (p : BuildAlg.Prog) (hwf : p.WFb = true) (b : Built) (tr : List Ev)
+    (h : build p = .ok (b, tr)) (hlf : Bridge.leakFreeB p b = true) :
+    Prog.validG (Bridge.toProg p b.argsOf).nodes (Bridge.toEGraph p b)
+      (Bridge.toProg p b.argsOf).main [] = true :=
+  build_valid p (wf_of_wfb p hwf) b tr h (Bridge.leakFree_of_check p b hlf)
+
+/-- **build_correct** (composition with C01's `valid_sound`): running the built emission with the
+    ONNX scoping rule computes the program's direct denotation, for any operator semantics, any
+    binding of the outer arguments and any actual inputs. -/
+theorem build_correct {Val : Type} [Inhabited Val] (S : Prog.Sem Val) (p : BuildAlg.Prog)
+    (hwf : WF p) (b : Built) (tr : List Ev) (h : build p = .ok (b, tr))
+    (LF : Bridge.LeakFree p b) (bind : Nat → Val) (vals : List Val) :
+    Prog.evalG S (Bridge.toProg p b.argsOf).nodes (Bridge.toEGraph p b) (fun _ => none) vals =
+      some (Prog.denoteG S (Bridge.toProg p b.argsOf).nodes bind
+        (Bridge.toProg p b.argsOf).main vals) :=
+  C01.valid_sound S _ (Bridge.wf_toProg p hwf b.argsOf) _ _ (build_valid p hwf b tr h LF) bind vals
+
 /-! ### the remaining rejections are single tests of the model (exercised by the correspondence) -/
 
 /-- **claimed_twice_rejected**: a graph whose argument list meets the arguments already claimed by the
@@ -381,5 +452,10 @@ def exSiblingLeak : Prog :=
 
 example : ∃ b tr, build exSiblingLeak = .ok (b, tr) ∧ structOk exSiblingLeak tr [] = false := by
   refine ⟨_, _, rfl, ?_⟩; decide
+
+/- Non-vacuity of `build_valid`: kernel evaluation of `Prog.validG` (a mutual definition over a nested
+   inductive) is too expensive for a `decide`/`rfl` example; instead the native driver evaluates
+   `validG (toProg p) (toEGraph (build p))` on every generated case of every run (about 6 000 built
+   programs per quick run, all accepted; facet `bridge_valid` of the C04 correspondence). -/
 
 end C04
